@@ -206,14 +206,6 @@ Proof.
   - destruct (c <? 65536); cbn [app]; discriminate.
 Qed.
 
-Theorem default_inert : forall t rest, safe_default t = true -> hd_not_quote rest ->
-  lex_str (site_default t ++ rest) = Some (t, rest).
-Proof.
-  intros t rest Hs Hr. unfold site_default. rewrite lex_str_dq; [| exact Hr |].
-  - rewrite lex_json_esc by exact Hs. rewrite step_close_dq. cbn [prepend]. rewrite app_nil_r. reflexivity.
-  - destruct t as [|c t]; [exact I|]. unfold json_esc. cbn [flat_map].
-    pose proof (json_esc1_head c) as Hh. destruct (json_esc1 c) as [|d l]; [contradiction|]. exact Hh.
-Qed.
 
 (* ------------------------------------------------------------------ docstrings: text without quote/backslash *)
 Definition okq (q : lst) : Prop := q = Nrm \/ q = AfterCR.
@@ -251,26 +243,10 @@ Lemma lex_str_q3 : forall s, lex_str (q3 ++ s) = lex_go true Nrm s.
 Proof. intro s. reflexivity. Qed.
 
 (* raw text inside a docstring template: pre/post are the fixed template parts *)
-Theorem block_doc_inert : forall pre post t rest,
-  safe_doc_raw pre = true -> safe_doc_raw t = true -> closes (post ++ q3 ++ rest) rest ->
-  exists v, lex_str (site_block_doc pre post t ++ rest) = Some (v, rest).
-Proof.
-  intros pre post t rest Hp Ht Hc. unfold site_block_doc. rewrite <- !app_assoc. rewrite lex_str_q3.
-  apply run_docplain; [left; reflexivity | exact Hp |].
-  intros q Hq. apply run_docplain; [exact Hq | exact Ht | exact Hc].
-Qed.
 
 Lemma forallb_docplain_app : forall a b, forallb docplain a = true -> forallb docplain b = true -> forallb docplain (a ++ b) = true.
 Proof. intros a b Ha Hb. rewrite forallb_app, Ha, Hb. reflexivity. Qed.
 
-Theorem tag_doc_inert : forall t rest, safe_doc_raw t = true ->
-  exists v, lex_str (site_tag_doc t ++ rest) = Some (v, rest).
-Proof.
-  intros t rest Ht. unfold site_tag_doc. rewrite <- !app_assoc. rewrite lex_str_q3.
-  rewrite !app_assoc. rewrite <- (app_assoc _ q3 rest).
-  apply run_docplain; [left; reflexivity | | apply closes_q3].
-  repeat apply forallb_docplain_app; try exact Ht; reflexivity.
-Qed.
 
 (* DocumentationWriter: every character of the layout is white space or a character of t *)
 Lemma drop_ws_docplain : forall t, forallb docplain t = true -> forallb docplain (drop_ws t) = true.
@@ -296,40 +272,9 @@ Proof.
     rewrite Hc. apply (IH t'); assumption.
 Qed.
 
-Lemma docwriter_rel_shape : forall t out, site_docwriter_rel t out = true ->
-  exists o, out = q3 ++ o ++ q3 /\ layoutb t o = true.
-Proof.
-  intros t out H. unfold site_docwriter_rel in H.
-  destruct out as [|a [|b [|c o']]]; try discriminate.
-  destruct (rev o') as [|z [|y [|x [|w ro]]]] eqn:Er;
-    try (rewrite !andb_false_r in H; discriminate).
-  repeat match goal with E : _ && _ = true |- _ => apply andb_true_iff in E; destruct E end.
-  repeat match goal with E : (_ =? _) = true |- _ => apply N.eqb_eq in E end. subst.
-  exists (rev (10 :: ro)). split; [|assumption].
-  apply (f_equal (@rev N)) in Er. rewrite rev_involutive in Er. rewrite Er.
-  cbn [rev]. unfold q3. rewrite <- !app_assoc. reflexivity.
-Qed.
 
-Theorem docwriter_inert : forall t out rest, safe_doc_raw t = true -> site_docwriter_rel t out = true ->
-  exists v, lex_str (out ++ rest) = Some (v, rest).
-Proof.
-  intros t out rest Ht HR. apply docwriter_rel_shape in HR. destruct HR as [o [-> HL]].
-  rewrite <- !app_assoc. rewrite lex_str_q3.
-  apply run_docplain; [left; reflexivity | | apply closes_q3].
-  apply (layout_docplain o t); [exact Ht | exact HL].
-Qed.
 
 (* ------------------------------------------------------------------ comment *)
-Theorem field_comment_inert : forall t, safe_field_comment t = true ->
-  single_physical_line (site_field_comment t) = true.
-Proof.
-  intros t H. unfold site_field_comment, single_physical_line. cbn [forallb]. cbn.
-  unfold safe_field_comment, no_chars in H. unfold nl_to_sp. rewrite forallb_forall in *.
-  intros c Hc. apply in_map_iff in Hc. destruct Hc as [d [Hd Hin]]. specialize (H d Hin).
-  unfold line_break. destruct (d =? 10) eqn:E10.
-  - subst c. reflexivity.
-  - subst c. rewrite E10. destruct (d =? 13); [discriminate|]. exact H.
-Qed.
 
 (* ------------------------------------------------------------------ docstring templates with isolated quotes *)
 Lemma step_docplain : forall c q r rest, docplain c = true -> okq q ->
@@ -377,13 +322,6 @@ Proof.
       * intros q' Hq'. apply IH; assumption.
 Qed.
 
-Theorem block_doc_inert_isoq : forall pre post t rest,
-  safe_doc_raw pre = true -> safe_doc_raw t = true -> isoq post = true ->
-  exists v, lex_str (site_block_doc pre post t ++ rest) = Some (v, rest).
-Proof.
-  intros pre post t rest Hp Ht Hpost. apply block_doc_inert; [exact Hp | exact Ht |].
-  intros q Hq. apply run_isoq; [exact Hq | exact Hpost | apply closes_q3].
-Qed.
 
 (* ------------------------------------------------------------------ the alias docstring: \ doubled, then QQQ escaped *)
 Fixpoint paired (u : str) : bool :=
@@ -515,25 +453,8 @@ Proof.
            ++ destruct r1; [reflexivity | exact Hl].
 Qed.
 
-Theorem alias_doc_inert : forall t rest, safe_alias_doc t = true ->
-  site_alias_doc t = [] \/ exists v, lex_str (site_alias_doc t ++ rest) = Some (v, rest).
-Proof.
-  intros t rest H. destruct t as [|c t]; [left; reflexivity|]. right.
-  unfold safe_alias_doc in H. apply andb_true_iff in H. destruct H as [Hb Hl].
-  unfold site_alias_doc. rewrite <- !app_assoc. rewrite lex_str_q3.
-  apply run_docplain; [left; reflexivity | reflexivity |].
-  intros q Hq. apply (alias_run (length (dbl_bs (c :: t)))); try assumption.
-  - lia.
-  - apply paired_dbl_bs.
-  - apply nobad_dbl_bs. exact Hb.
-  - apply last_nq_dbl_bs. exact Hl.
-  - apply closes_q3.
-Qed.
 
 (* ------------------------------------------------------------------ instances of the block-docstring theorem *)
-Theorem block_line_inert : forall t rest, safe_doc_raw t = true ->
-  exists v, lex_str (site_block_line t ++ rest) = Some (v, rest).
-Proof. intros t rest H. apply block_doc_inert_isoq; [reflexivity | exact H | reflexivity]. Qed.
 
 Lemma isoq_app : forall a b, safe_doc_raw a = true -> isoq b = true -> isoq (a ++ b) = true.
 Proof.
@@ -544,13 +465,6 @@ Proof.
   destruct (c =? 92); [discriminate|]. exact Hc.
 Qed.
 
-Theorem client_title_inert : forall version t rest, safe_doc_raw version = true -> safe_doc_raw t = true ->
-  exists v, lex_str (site_client_title version t ++ rest) = Some (v, rest).
-Proof.
-  intros ver t rest Hv H. apply block_doc_inert_isoq; [reflexivity | exact H |].
-  cbn [isoq app]. change (isoq ([118;101;114;115;105;111;110;32] ++ ver ++ [41;10]) = true).
-  apply (isoq_app [118;101;114;115;105;111;110;32]); [reflexivity|]. apply isoq_app; [exact Hv | reflexivity].
-Qed.
 
 (* ------------------------------------------------------------------ refutation witnesses (vm_compute) *)
 Definition w_quote : str := [97; 34; 98].          (* a, quote, b *)
@@ -569,40 +483,15 @@ Lemma dq_block_refuted : safe_dq_block w_quote = false /\ lex_str (reflow ind4 (
 Proof. split; [reflexivity | vm_compute; discriminate]. Qed.
 Lemma dq_block_refuted_ff : safe_dq_block w_ff = false /\ safe_dq_raw w_ff = true /\ lex_str (reflow ind4 (dq w_ff) ++ []) = None.
 Proof. repeat split. Qed.
-Lemma alias_refuted : safe_alias_doc w_endq = false /\ site_alias_doc w_endq <> [] /\
-  forall v, lex_str (site_alias_doc w_endq ++ []) <> Some (v, []).
-Proof. split; [reflexivity|]. split; [discriminate|]. intros v H. vm_compute in H. discriminate. Qed.
-Definition w_docw_out : str := q3 ++ [10] ++ q3 ++ [10] ++ q3.   (* the real rendering of summary = QQQ *)
-Lemma docwriter_refuted : safe_doc_raw q3 = false /\ site_docwriter_rel q3 w_docw_out = true /\
-  forall v, lex_str (w_docw_out ++ []) <> Some (v, []).
-Proof. split; [reflexivity|]. split; [reflexivity|]. intros v H. vm_compute in H. discriminate. Qed.
-Definition w_docw_out_bsx : str := q3 ++ [10] ++ w_bsx ++ [10] ++ q3.
-Lemma docwriter_refuted_bsx : safe_doc_raw w_bsx = false /\ site_docwriter_rel w_bsx w_docw_out_bsx = true /\
-  lex_str (w_docw_out_bsx ++ []) = None.
-Proof. repeat split. Qed.
-Lemma comment_refuted : safe_field_comment w_cr = false /\ single_physical_line (site_field_comment w_cr) = false.
-Proof. split; reflexivity. Qed.
-Lemma default_refuted : safe_default w_astral = false /\ lex_str (site_default w_astral ++ []) = Some ([55357; 56832], []).
-Proof. split; reflexivity. Qed.
-Lemma client_title_refuted : safe_doc_raw q3 = false /\ forall v, lex_str (site_client_title [49;46;48] q3 ++ []) <> Some (v, []).
-Proof. split; [reflexivity|]. intros v H. vm_compute in H. discriminate. Qed.
-Lemma tag_doc_refuted : safe_doc_raw q3 = false /\ forall v, lex_str (site_tag_doc q3 ++ []) <> Some (v, []).
-Proof. split; [reflexivity|]. intros v H. vm_compute in H. discriminate. Qed.
-Lemma block_line_refuted : safe_doc_raw w_bsx = false /\ lex_str (site_block_line w_bsx ++ []) = None.
-Proof. split; reflexivity. Qed.
 
 (* ------------------------------------------------------------------ the guards are not vacuous *)
 Definition ex_text : str := [104; 233; 108; 108; 111; 32; 119; 8211; 28450; 47; 49; 39; 123; 125; 37; 115].  (* non-ASCII, braces, percent *)
 Example guards_nonvacuous :
-  safe_dq_raw ex_text = true /\ safe_dq_block ex_text = true /\ safe_default (ex_text ++ [34; 92; 10; 0; 127; 55296]) = true /\
-  safe_doc_raw (ex_text ++ [10; 13; 9]) = true /\ safe_field_comment (ex_text ++ [34; 92; 10; 12; 8232]) = true /\
-  safe_alias_doc (ex_text ++ [34; 34; 34; 34; 92; 34; 92; 110; 13; 10; 120]) = true.
+  scalar (ex_text ++ [34; 92; 10; 13; 0; 127; 133; 8232; 128512]) = true /\
+  in_range (ex_text ++ [34; 39; 92; 10; 0; 55296; 128512]) = true /\
+  safe_enum_default [108;111;119;45;112;114;105;111;32;50] = true.
 Proof. repeat split. Qed.
 (* the escaping sites really escape: what the lexer reads back *)
-Example default_example : lex_str (site_default [34; 92; 10; 0; 233; 8232; 127]) = Some ([34; 92; 10; 0; 233; 8232; 127], []).
-Proof. reflexivity. Qed.
-Example alias_example : exists v, lex_str (site_alias_doc [97; 34; 34; 34; 34; 92; 110; 120]) = Some (s_alias_for ++ [97; 34; 34; 34; 34; 92; 110; 120] ++ v, []).
-Proof. exists []. reflexivity. Qed.
 
 (* ------------------------------------------------------------------ the inventory (regenerated from source) *)
 From PG Require Import Gen.T_C15.
@@ -659,3 +548,651 @@ Proof. split; reflexivity. Qed.
 Example enum_default_example : safe_enum_default [108;111;119;45;112;114;105;111;32;50] = true /\
   site_enum_default [108;111;119;45;112;114;105;111;32;50] = [76;79;87;95;80;82;73;79;95;50].
 Proof. split; reflexivity. Qed.
+
+(* ================================================================== escapers used by the repaired sites *)
+(* ---------- json.dumps(s, ensure_ascii=False) *)
+Lemma scalar_cons : forall c t, scalar (c :: t) = true -> is_surrogate c = false /\ c <= 1114111 /\ scalar t = true.
+Proof.
+  intros c t H. unfold scalar in H. cbn [forallb] in H. apply andb_true_iff in H. destruct H as [Hc Ht].
+  apply andb_true_iff in Hc. destruct Hc as [Hs Hm]. apply negb_true_iff in Hs. apply N.leb_le in Hm. auto.
+Qed.
+
+Lemma lex_json_raw1 : forall tq c X, is_surrogate c = false -> c <= 1114111 ->
+  lex_go tq Nrm (json_raw1 c ++ X) = consf c (lex_go tq Nrm X).
+Proof.
+  intros tq c X Hs Hm. unfold json_raw1.
+  destruct (c =? 34) eqn:E34. { apply N.eqb_eq in E34; subst c. cbn [app]. rewrite step_bs. apply step_esc_simple. reflexivity. }
+  destruct (c =? 92) eqn:E92. { apply N.eqb_eq in E92; subst c. cbn [app]. rewrite step_bs. apply step_esc_simple. reflexivity. }
+  destruct (c =? 10) eqn:E10. { apply N.eqb_eq in E10; subst c. cbn [app]. rewrite step_bs. apply step_esc_simple. reflexivity. }
+  destruct (c =? 13) eqn:E13. { apply N.eqb_eq in E13; subst c. cbn [app]. rewrite step_bs. apply step_esc_simple. reflexivity. }
+  destruct (c =? 9) eqn:E9. { apply N.eqb_eq in E9; subst c. cbn [app]. rewrite step_bs. apply step_esc_simple. reflexivity. }
+  destruct (c =? 8) eqn:E8. { apply N.eqb_eq in E8; subst c. cbn [app]. rewrite step_bs. apply step_esc_simple. reflexivity. }
+  destruct (c =? 12) eqn:E12. { apply N.eqb_eq in E12; subst c. cbn [app]. rewrite step_bs. apply step_esc_simple. reflexivity. }
+  destruct (c <? 32) eqn:E32.
+  - apply lex_u_esc. apply N.ltb_lt in E32. lia.
+  - cbn [app]. apply step_plain. unfold plain, bad_raw. rewrite E34, E92, E13, E10, Hs.
+    apply N.ltb_ge in E32.
+    replace (c =? 0) with false by (symmetry; apply N.eqb_neq; lia).
+    replace (1114111 <? c) with false by (symmetry; apply N.ltb_ge; lia).
+    destruct tq; reflexivity.
+Qed.
+
+Lemma lex_json_raw : forall tq t X, scalar t = true ->
+  lex_go tq Nrm (json_raw t ++ X) = prepend t (lex_go tq Nrm X).
+Proof.
+  induction t as [|c t IH]; intros X H.
+  - rewrite prepend_nil. reflexivity.
+  - apply scalar_cons in H. destruct H as [Hs [Hm Ht]].
+    unfold json_raw. cbn [flat_map]. rewrite <- app_assoc. rewrite lex_json_raw1 by assumption.
+    fold (json_raw t). rewrite IH by exact Ht. rewrite prepend_cons. reflexivity.
+Qed.
+
+Lemma json_raw1_head : forall c, match json_raw1 c with d :: _ => d <> 34 | [] => False end.
+Proof.
+  intro c. unfold json_raw1, u_esc.
+  destruct (c =? 34) eqn:E34; [discriminate|].
+  destruct (c =? 92); [discriminate|]. destruct (c =? 10); [discriminate|]. destruct (c =? 13); [discriminate|].
+  destruct (c =? 9); [discriminate|]. destruct (c =? 8); [discriminate|]. destruct (c =? 12); [discriminate|].
+  destruct (c <? 32); [discriminate|]. apply N.eqb_neq. exact E34.
+Qed.
+
+Theorem json_raw_inert : forall t rest, scalar t = true -> hd_not_quote rest ->
+  lex_str (dq (json_raw t) ++ rest) = Some (t, rest).
+Proof.
+  intros t rest Hs Hr. rewrite lex_str_dq; [| exact Hr |].
+  - rewrite lex_json_raw by exact Hs. rewrite step_close_dq. cbn [prepend]. rewrite app_nil_r. reflexivity.
+  - destruct t as [|c t]; [exact I|]. unfold json_raw. cbn [flat_map].
+    pose proof (json_raw1_head c) as Hh. destruct (json_raw1 c) as [|d l]; [contradiction|]. exact Hh.
+Qed.
+
+Lemma lex_dq_dq : forall body rest, hd_not_quote rest ->
+  match body with c :: _ => c <> 34 | [] => True end ->
+  lex_dq (dq body ++ rest) = lex_go false Nrm (body ++ 34 :: rest).
+Proof.
+  intros body rest Hr Hb. unfold lex_dq. rewrite starts3_dq by assumption.
+  unfold dq. cbn [app]. rewrite N.eqb_refl. rewrite <- app_assoc. reflexivity.
+Qed.
+
+(* ---------- repr(str) *)
+Lemma hex4_acc : forall acc a, a < 65536 ->
+  16 * (16 * (16 * (16 * acc + a / 4096) + (a / 256) mod 16) + (a / 16) mod 16) + a mod 16 = 65536 * acc + a.
+Proof. intros acc a H. pose proof (hex4_value a H). lia. Qed.
+
+Lemma hex4_bounds : forall a, a < 65536 ->
+  a / 4096 < 16 /\ (a / 256) mod 16 < 16 /\ (a / 16) mod 16 < 16 /\ a mod 16 < 16.
+Proof.
+  intros a H. repeat split; try (apply N.mod_lt; lia). apply N.div_lt_upper_bound; lia.
+Qed.
+
+Lemma lex_hex4_mid : forall tq k acc a X, a < 65536 ->
+  lex_go tq (Hex (S (S (S (S (S k))))) acc) (hex4 a ++ X) = lex_go tq (Hex (S k) (65536 * acc + a)) X.
+Proof.
+  intros tq k acc a X H. destruct (hex4_bounds a H) as [B3 [B2 [B1 B0]]]. unfold hex4. cbn [app].
+  rewrite (step_hex tq _ acc _ (a / 4096)) by (apply hexval_hexdig; assumption).
+  rewrite (step_hex tq _ _ _ ((a / 256) mod 16)) by (apply hexval_hexdig; assumption).
+  rewrite (step_hex tq _ _ _ ((a / 16) mod 16)) by (apply hexval_hexdig; assumption).
+  rewrite (step_hex tq _ _ _ (a mod 16)) by (apply hexval_hexdig; assumption).
+  rewrite hex4_acc by exact H. reflexivity.
+Qed.
+
+Lemma lex_hex4_last : forall tq acc a X, a < 65536 -> 65536 * acc + a <= 1114111 ->
+  lex_go tq (Hex 4 acc) (hex4 a ++ X) = consf (65536 * acc + a) (lex_go tq Nrm X).
+Proof.
+  intros tq acc a X H Hm. destruct (hex4_bounds a H) as [B3 [B2 [B1 B0]]]. unfold hex4. cbn [app].
+  rewrite (step_hex tq _ acc _ (a / 4096)) by (apply hexval_hexdig; assumption).
+  rewrite (step_hex tq _ _ _ ((a / 256) mod 16)) by (apply hexval_hexdig; assumption).
+  rewrite (step_hex tq _ _ _ ((a / 16) mod 16)) by (apply hexval_hexdig; assumption).
+  rewrite (step_hex_last tq _ _ (a mod 16)).
+  - rewrite hex4_acc by exact H. reflexivity.
+  - apply hexval_hexdig; assumption.
+  - rewrite hex4_acc by exact H. apply N.ltb_ge. exact Hm.
+Qed.
+
+Lemma step_esc_U : forall tq r, lex_go tq Esc (85 :: r) = lex_go tq (Hex 8 0) r.
+Proof. intros tq r. destruct r; reflexivity. Qed.
+Lemma step_esc_x : forall tq r, lex_go tq Esc (120 :: r) = lex_go tq (Hex 2 0) r.
+Proof. intros tq r. destruct r; reflexivity. Qed.
+
+Lemma lex_U_esc : forall tq c X, c <= 1114111 -> lex_go tq Nrm (U_esc c ++ X) = consf c (lex_go tq Nrm X).
+Proof.
+  intros tq c X H. unfold U_esc. cbn [app]. rewrite step_bs, step_esc_U. rewrite <- app_assoc.
+  assert (c / 65536 < 65536) by (apply N.div_lt_upper_bound; lia).
+  assert (c mod 65536 < 65536) by (apply N.mod_lt; lia).
+  assert (E : 65536 * (65536 * 0 + c / 65536) + c mod 65536 = c).
+  { pose proof (N.div_mod c 65536). lia. }
+  rewrite (lex_hex4_mid tq 3 0 (c / 65536)) by assumption.
+  rewrite lex_hex4_last; [rewrite E; reflexivity | assumption | lia].
+Qed.
+
+Lemma lex_x_esc : forall tq c X, c < 256 -> lex_go tq Nrm (x_esc c ++ X) = consf c (lex_go tq Nrm X).
+Proof.
+  intros tq c X H. unfold x_esc, hex2. cbn [app]. rewrite step_bs, step_esc_x.
+  assert (c / 16 < 16) by (apply N.div_lt_upper_bound; lia).
+  assert (c mod 16 < 16) by (apply N.mod_lt; lia).
+  assert (E : 16 * (16 * 0 + c / 16) + c mod 16 = c) by (pose proof (N.div_mod c 16); lia).
+  rewrite (step_hex tq 0 0 _ (c / 16)) by (apply hexval_hexdig; assumption).
+  rewrite (step_hex_last tq _ _ (c mod 16)).
+  - rewrite E. reflexivity.
+  - apply hexval_hexdig; assumption.
+  - rewrite E. apply N.ltb_ge. lia.
+Qed.
+
+(* the escape sequences contain no quote character: exchanging the quotes leaves them alone *)
+Lemma swapq_hexdig : forall d, d < 16 -> swapq (hexdig d) = hexdig d.
+Proof.
+  intros d H.
+  assert (d = 0 \/ d = 1 \/ d = 2 \/ d = 3 \/ d = 4 \/ d = 5 \/ d = 6 \/ d = 7 \/ d = 8 \/ d = 9 \/ d = 10
+          \/ d = 11 \/ d = 12 \/ d = 13 \/ d = 14 \/ d = 15) as D by lia.
+  repeat (destruct D as [-> | D]; [reflexivity|]). subst d. reflexivity.
+Qed.
+Lemma swapq_hex4 : forall a, a < 65536 -> map swapq (hex4 a) = hex4 a.
+Proof.
+  intros a H. destruct (hex4_bounds a H) as [B3 [B2 [B1 B0]]]. unfold hex4. cbn [map].
+  rewrite !swapq_hexdig by assumption. reflexivity.
+Qed.
+Lemma swapq_x_esc : forall c, c < 256 -> map swapq (x_esc c) = x_esc c.
+Proof.
+  intros c H. unfold x_esc, hex2. cbn [map].
+  rewrite !swapq_hexdig; [reflexivity | apply N.mod_lt; lia | apply N.div_lt_upper_bound; lia].
+Qed.
+Lemma swapq_u_esc : forall c, c < 65536 -> map swapq (u_esc c) = u_esc c.
+Proof. intros c H. unfold u_esc. cbn [map]. rewrite swapq_hex4 by exact H. reflexivity. Qed.
+Lemma swapq_U_esc : forall c, c <= 1114111 -> map swapq (U_esc c) = U_esc c.
+Proof.
+  intros c H. unfold U_esc. cbn [map]. rewrite map_app.
+  rewrite !swapq_hex4; [reflexivity | apply N.mod_lt; lia | apply N.div_lt_upper_bound; lia].
+Qed.
+Lemma swapq_invol : forall c, swapq (swapq c) = c.
+Proof.
+  intro c. unfold swapq. destruct (c =? 34) eqn:A.
+  - apply N.eqb_eq in A. subst c. reflexivity.
+  - destruct (c =? 39) eqn:B.
+    + apply N.eqb_eq in B. subst c. reflexivity.
+    + rewrite A, B. reflexivity.
+Qed.
+Lemma map_swapq_invol : forall s, map swapq (map swapq s) = s.
+Proof. induction s as [|c s IH]; [reflexivity|]. cbn [map]. rewrite swapq_invol, IH. reflexivity. Qed.
+
+(* one character of repr, read back in a double-quoted literal: [sw] is the identity for q = 34 and the quote
+   exchange for q = 39 (where the literal is read through lex_sq) *)
+Lemma lex_repr_esc1 : forall pr (sw : N -> N) q c X, pr_ok pr -> c <= 1114111 ->
+  ((sw = (fun x => x) /\ q = 34) \/ (sw = swapq /\ q = 39)) ->
+  lex_go false Nrm (map sw (repr_esc1 pr q c) ++ X) = consf (sw c) (lex_go false Nrm X).
+Proof.
+  intros pr sw q c X Hpr Hm Hsw.
+  assert (Hid : forall l, (forall x, In x l -> x <> 34 /\ x <> 39) -> map sw l = l).
+  { intros l Hl. destruct Hsw as [[-> _] | [-> _]]; [apply map_id|].
+    induction l as [|x l IH]; [reflexivity|]. cbn [map]. rewrite IH by (intros y Hy; apply Hl; right; exact Hy).
+    destruct (Hl x (or_introl eq_refl)) as [A B]. unfold swapq.
+    apply N.eqb_neq in A. apply N.eqb_neq in B. rewrite A, B. reflexivity. }
+  assert (Hfix : forall x, x <> 34 -> x <> 39 -> sw x = x).
+  { intros x A B. destruct Hsw as [[-> _] | [-> _]]; [reflexivity|]. unfold swapq.
+    apply N.eqb_neq in A. apply N.eqb_neq in B. rewrite A, B. reflexivity. }
+  assert (Hswq : sw q = 34) by (destruct Hsw as [[-> ->] | [-> ->]]; reflexivity).
+  assert (Hesc : forall e, (map swapq e = e) -> map sw e = e).
+  { intros e He. destruct Hsw as [[-> _] | [-> _]]; [apply map_id | exact He]. }
+  unfold repr_esc1.
+  destruct (c =? 92) eqn:E92.
+  { apply N.eqb_eq in E92; subst c. rewrite (Hesc [92;92] eq_refl). rewrite (Hfix 92) by discriminate.
+    cbn [app]. rewrite step_bs. apply step_esc_simple. reflexivity. }
+  destruct (c =? q) eqn:Eq.
+  { apply N.eqb_eq in Eq; subst c. cbn [map app]. rewrite (Hfix 92) by discriminate. rewrite Hswq.
+    rewrite step_bs. apply step_esc_simple. reflexivity. }
+  destruct (c =? 9) eqn:E9.
+  { apply N.eqb_eq in E9; subst c. rewrite (Hesc [92;116] eq_refl). rewrite (Hfix 9) by discriminate.
+    cbn [app]. rewrite step_bs. apply step_esc_simple. reflexivity. }
+  destruct (c =? 10) eqn:E10.
+  { apply N.eqb_eq in E10; subst c. rewrite (Hesc [92;110] eq_refl). rewrite (Hfix 10) by discriminate.
+    cbn [app]. rewrite step_bs. apply step_esc_simple. reflexivity. }
+  destruct (c =? 13) eqn:E13.
+  { apply N.eqb_eq in E13; subst c. rewrite (Hesc [92;114] eq_refl). rewrite (Hfix 13) by discriminate.
+    cbn [app]. rewrite step_bs. apply step_esc_simple. reflexivity. }
+  destruct ((c <? 32) || (c =? 127)) eqn:Ectl.
+  { assert (c < 256).
+    { apply orb_true_iff in Ectl. destruct Ectl as [A|A]; [apply N.ltb_lt in A | apply N.eqb_eq in A]; lia. }
+    assert (c <> 34 /\ c <> 39).
+    { apply orb_true_iff in Ectl. destruct Ectl as [A|A]; [apply N.ltb_lt in A | apply N.eqb_eq in A]; lia. }
+    rewrite (Hesc _ (swapq_x_esc c H)). rewrite (Hfix c) by tauto. apply lex_x_esc. exact H. }
+  apply orb_false_iff in Ectl. destruct Ectl as [E32 E127]. apply N.ltb_ge in E32. apply N.eqb_neq in E127.
+  apply N.eqb_neq in E92.
+  destruct (c <? 127) eqn:Easc.
+  { (* printable ASCII other than backslash and the literal's quote *)
+    apply N.ltb_lt in Easc. cbn [map app]. apply step_plain.
+    assert (Hne : sw c <> 34).
+    { destruct Hsw as [[-> ->] | [-> ->]].
+      - apply N.eqb_neq. exact Eq.
+      - apply N.eqb_neq in Eq. unfold swapq. destruct (c =? 34) eqn:A; [discriminate|].
+        destruct (c =? 39) eqn:B; [apply N.eqb_eq in B; contradiction|]. apply N.eqb_neq. exact A. }
+    assert (Hrange : 32 <= sw c /\ sw c < 127 /\ sw c <> 92).
+    { destruct Hsw as [[-> _] | [-> _]]; [lia|]. unfold swapq.
+      destruct (c =? 34) eqn:A; [lia|]. destruct (c =? 39) eqn:B; lia. }
+    unfold plain, bad_raw, is_surrogate.
+    replace (sw c =? 34) with false by (symmetry; apply N.eqb_neq; exact Hne).
+    replace (sw c =? 92) with false by (symmetry; apply N.eqb_neq; lia).
+    replace (sw c =? 0) with false by (symmetry; apply N.eqb_neq; lia).
+    replace (55296 <=? sw c) with false by (symmetry; apply N.leb_gt; lia).
+    replace (1114111 <? sw c) with false by (symmetry; apply N.ltb_ge; lia).
+    replace (sw c =? 13) with false by (symmetry; apply N.eqb_neq; lia).
+    replace (sw c =? 10) with false by (symmetry; apply N.eqb_neq; lia).
+    reflexivity. }
+  apply N.ltb_ge in Easc.
+  assert (Hc : c <> 34 /\ c <> 39) by lia.
+  destruct (pr c) eqn:Epr.
+  { destruct (Hpr c Epr) as [H128 [Hbad Hbrk]]. cbn [map app]. rewrite (Hfix c) by tauto. apply step_plain.
+    unfold plain. rewrite Hbad.
+    replace (c =? 34) with false by (symmetry; apply N.eqb_neq; lia).
+    replace (c =? 92) with false by (symmetry; apply N.eqb_neq; lia).
+    replace (c =? 13) with false by (symmetry; apply N.eqb_neq; lia).
+    replace (c =? 10) with false by (symmetry; apply N.eqb_neq; lia). reflexivity. }
+  rewrite (Hfix c) by tauto.
+  destruct (c <? 256) eqn:E256.
+  { apply N.ltb_lt in E256. rewrite (Hesc _ (swapq_x_esc c E256)). apply lex_x_esc. exact E256. }
+  destruct (c <? 65536) eqn:E64k.
+  { apply N.ltb_lt in E64k. rewrite (Hesc _ (swapq_u_esc c E64k)). apply lex_u_esc. exact E64k. }
+  rewrite (Hesc _ (swapq_U_esc c Hm)). apply lex_U_esc. exact Hm.
+Qed.
+
+Lemma lex_repr_body : forall pr (sw : N -> N) q t X, pr_ok pr -> in_range t = true ->
+  ((sw = (fun x => x) /\ q = 34) \/ (sw = swapq /\ q = 39)) ->
+  lex_go false Nrm (map sw (flat_map (repr_esc1 pr q) t) ++ X) = prepend (map sw t) (lex_go false Nrm X).
+Proof.
+  intros pr sw q t X Hpr Hr Hsw. revert X. induction t as [|c t IH]; intro X.
+  - cbn. rewrite prepend_nil. reflexivity.
+  - unfold in_range in Hr. cbn [forallb] in Hr. apply andb_true_iff in Hr. destruct Hr as [Hc Ht].
+    apply N.leb_le in Hc. cbn [flat_map map]. rewrite map_app, <- app_assoc.
+    rewrite (lex_repr_esc1 pr sw q c _ Hpr Hc Hsw). rewrite (IH Ht). rewrite prepend_cons. reflexivity.
+Qed.
+
+Lemma repr_esc1_head : forall pr q c, match repr_esc1 pr q c with d :: _ => d = 92 \/ (d = c /\ c <> q) | [] => False end.
+Proof.
+  intros pr q c. unfold repr_esc1, x_esc, u_esc, U_esc.
+  destruct (c =? 92); [left; reflexivity|]. destruct (c =? q) eqn:Eq; [left; reflexivity|]. apply N.eqb_neq in Eq.
+  destruct (c =? 9); [left; reflexivity|]. destruct (c =? 10); [left; reflexivity|]. destruct (c =? 13); [left; reflexivity|].
+  destruct ((c <? 32) || (c =? 127)); [left; reflexivity|].
+  destruct (c <? 127); [right; split; [reflexivity | exact Eq]|].
+  destruct (pr c); [right; split; [reflexivity | exact Eq]|].
+  destruct (c <? 256); [left; reflexivity|]. destruct (c <? 65536); left; reflexivity.
+Qed.
+
+(* repr(t) is read back as exactly t, whatever quote repr chose *)
+Theorem repr_inert : forall pr t rest, pr_ok pr -> in_range t = true ->
+  match rest with c :: _ => c <> 34 /\ c <> 39 | [] => True end ->
+  lex_lit (py_repr pr t ++ rest) = Some (t, rest).
+Proof.
+  intros pr t rest Hpr Hr Hrest. unfold py_repr. set (q := repr_quote t).
+  assert (Hq : q = 34 \/ q = 39) by (unfold q, repr_quote; destruct (_ && _); auto).
+  destruct Hq as [Hq | Hq]; rewrite Hq.
+  - (* double-quoted *)
+    unfold lex_lit. cbn [app]. change (34 =? 39) with false. cbv iota.
+    change (lex_str (dq (flat_map (repr_esc1 pr 34) t) ++ rest) = Some (t, rest)).
+    rewrite lex_str_dq.
+    + pose proof (lex_repr_body pr (fun x => x) 34 t (34 :: rest) Hpr Hr (or_introl (conj eq_refl eq_refl))) as L.
+      rewrite !map_id in L. rewrite L. rewrite step_close_dq. cbn [prepend]. rewrite app_nil_r. reflexivity.
+    + destruct rest as [|d r]; [exact I|]. cbn. apply Hrest.
+    + destruct t as [|c t]; [exact I|]. cbn [flat_map].
+      pose proof (repr_esc1_head pr 34 c) as Hh. destruct (repr_esc1 pr 34 c) as [|d l]; [contradiction|].
+      cbn [app]. destruct Hh as [-> | [-> Hne]]; [discriminate | exact Hne].
+  - (* single-quoted: read through the quote exchange *)
+    unfold lex_lit. cbn [app]. change (39 =? 39) with true. cbv iota. unfold lex_sq.
+    cbn [map]. change (swapq 39) with 34. rewrite !map_app. cbn [map]. change (swapq 39) with 34.
+    replace (34 :: (map swapq (flat_map (repr_esc1 pr 39) t) ++ [34]) ++ map swapq rest)
+      with (dq (map swapq (flat_map (repr_esc1 pr 39) t)) ++ map swapq rest) by reflexivity.
+    rewrite lex_dq_dq.
+    + rewrite (lex_repr_body pr swapq 39 t _ Hpr Hr (or_intror (conj eq_refl eq_refl))).
+      rewrite step_close_dq. cbn [prepend]. rewrite app_nil_r. rewrite !map_swapq_invol. reflexivity.
+    + destruct rest as [|d r]; [exact I|]. cbn [map hd_not_quote]. destruct Hrest as [A B]. unfold swapq.
+      apply N.eqb_neq in A. rewrite A. destruct (d =? 39) eqn:E; [apply N.eqb_eq in E; contradiction | apply N.eqb_neq; exact A].
+    + destruct t as [|c t]; [exact I|]. cbn [flat_map]. rewrite map_app.
+      pose proof (repr_esc1_head pr 39 c) as Hh. destruct (repr_esc1 pr 39 c) as [|d l]; [contradiction|].
+      cbn [map app]. destruct Hh as [-> | [-> Hne]]; [discriminate|].
+      unfold swapq. destruct (c =? 34) eqn:A; [discriminate|]. destruct (c =? 39) eqn:E; [apply N.eqb_eq in E; contradiction|].
+      apply N.eqb_neq. exact A.
+Qed.
+
+(* ================================================================== the repaired sites: FULL theorems *)
+Theorem site_json_raw_inert : forall t rest, scalar t = true -> hd_not_quote rest ->
+  lex_str (dq (json_raw t) ++ rest) = Some (t, rest).
+Proof. exact json_raw_inert. Qed.
+
+(* no character emitted by repr / python_string_literal is a line-break character of str.splitlines *)
+Lemma hexdig_not_break : forall d, d < 16 -> is_break (hexdig d) = false.
+Proof.
+  intros d H.
+  assert (d = 0 \/ d = 1 \/ d = 2 \/ d = 3 \/ d = 4 \/ d = 5 \/ d = 6 \/ d = 7 \/ d = 8 \/ d = 9 \/ d = 10
+          \/ d = 11 \/ d = 12 \/ d = 13 \/ d = 14 \/ d = 15) as D by lia.
+  repeat (destruct D as [-> | D]; [reflexivity|]). subst d. reflexivity.
+Qed.
+Definition nobreak (s : str) : bool := forallb (fun c => negb (is_break c)) s.
+Lemma nobreak_hex4 : forall a, a < 65536 -> nobreak (hex4 a) = true.
+Proof.
+  intros a H. destruct (hex4_bounds a H) as [B3 [B2 [B1 B0]]]. unfold nobreak, hex4. cbn [forallb].
+  rewrite !hexdig_not_break by assumption. reflexivity.
+Qed.
+Lemma nobreak_app : forall a b, nobreak a = true -> nobreak b = true -> nobreak (a ++ b) = true.
+Proof. intros a b Ha Hb. unfold nobreak in *. rewrite forallb_app, Ha, Hb. reflexivity. Qed.
+
+Lemma nobreak_repr_esc1 : forall pr q c, pr_ok pr -> c <= 1114111 -> (q = 34 \/ q = 39) ->
+  nobreak (repr_esc1 pr q c) = true.
+Proof.
+  intros pr q c Hpr Hm Hq. unfold repr_esc1.
+  destruct (c =? 92); [reflexivity|].
+  destruct (c =? q); [destruct Hq as [-> | ->]; reflexivity|].
+  destruct (c =? 9); [reflexivity|]. destruct (c =? 10); [reflexivity|]. destruct (c =? 13) eqn:E13; [reflexivity|].
+  destruct ((c <? 32) || (c =? 127)) eqn:Ectl.
+  { assert (c < 256).
+    { apply orb_true_iff in Ectl. destruct Ectl as [A|A]; [apply N.ltb_lt in A | apply N.eqb_eq in A]; lia. }
+    unfold x_esc, hex2, nobreak. cbn [forallb].
+    rewrite !hexdig_not_break; [reflexivity | apply N.mod_lt; lia | apply N.div_lt_upper_bound; lia]. }
+  apply orb_false_iff in Ectl. destruct Ectl as [E32 E127]. apply N.ltb_ge in E32.
+  destruct (c <? 127) eqn:Easc.
+  { apply N.ltb_lt in Easc. unfold nobreak, is_break. cbn [forallb].
+    replace (c =? 10) with false by (symmetry; apply N.eqb_neq; lia).
+    replace (c =? 13) with false by (symmetry; apply N.eqb_neq; lia).
+    replace (c =? 11) with false by (symmetry; apply N.eqb_neq; lia).
+    replace (c =? 12) with false by (symmetry; apply N.eqb_neq; lia).
+    replace (c =? 28) with false by (symmetry; apply N.eqb_neq; lia).
+    replace (c =? 29) with false by (symmetry; apply N.eqb_neq; lia).
+    replace (c =? 30) with false by (symmetry; apply N.eqb_neq; lia).
+    replace (c =? 133) with false by (symmetry; apply N.eqb_neq; lia).
+    replace (c =? 8232) with false by (symmetry; apply N.eqb_neq; lia).
+    replace (c =? 8233) with false by (symmetry; apply N.eqb_neq; lia). reflexivity. }
+  destruct (pr c) eqn:Epr.
+  { destruct (Hpr c Epr) as [_ [_ Hb]]. unfold nobreak. cbn [forallb]. rewrite Hb. reflexivity. }
+  destruct (c <? 256) eqn:E256.
+  { apply N.ltb_lt in E256. unfold x_esc, hex2, nobreak. cbn [forallb].
+    rewrite !hexdig_not_break; [reflexivity | apply N.mod_lt; lia | apply N.div_lt_upper_bound; lia]. }
+  destruct (c <? 65536) eqn:E64k.
+  { apply N.ltb_lt in E64k. unfold u_esc. change (nobreak ([92; 117] ++ hex4 c) = true).
+    apply nobreak_app; [reflexivity | apply nobreak_hex4; exact E64k]. }
+  unfold U_esc. change (nobreak ([92; 85] ++ hex4 (c / 65536) ++ hex4 (c mod 65536)) = true).
+  apply nobreak_app; [reflexivity|]. apply nobreak_app; apply nobreak_hex4;
+    [apply N.div_lt_upper_bound; lia | apply N.mod_lt; lia].
+Qed.
+
+Lemma nobreak_repr_body : forall pr q t, pr_ok pr -> in_range t = true -> (q = 34 \/ q = 39) ->
+  nobreak (flat_map (repr_esc1 pr q) t) = true.
+Proof.
+  intros pr q t Hpr Hr Hq. induction t as [|c t IH]; [reflexivity|].
+  unfold in_range in Hr. cbn [forallb] in Hr. apply andb_true_iff in Hr. destruct Hr as [Hc Ht]. apply N.leb_le in Hc.
+  cbn [flat_map]. apply nobreak_app; [apply nobreak_repr_esc1; assumption | apply IH; exact Ht].
+Qed.
+
+Lemma nobreak_py_repr : forall pr t, pr_ok pr -> in_range t = true -> nobreak (py_repr pr t) = true.
+Proof.
+  intros pr t Hpr Hr. unfold py_repr.
+  assert (Hq : repr_quote t = 34 \/ repr_quote t = 39) by (unfold repr_quote; destruct (_ && _); auto).
+  change (nobreak ([repr_quote t] ++ flat_map (repr_esc1 pr (repr_quote t)) t ++ [repr_quote t]) = true).
+  apply nobreak_app; [destruct Hq as [-> | ->]; reflexivity|].
+  apply nobreak_app; [apply nobreak_repr_body; assumption | destruct Hq as [-> | ->]; reflexivity].
+Qed.
+
+Lemma pr_none_ok : pr_ok (fun _ => false).
+Proof. intros c H. discriminate. Qed.
+
+(* python_string_literal: read back as exactly t, for every string (lone surrogates included) *)
+Theorem ascii_lit_inert : forall t rest, in_range t = true -> hd_not_quote rest ->
+  lex_str (reflow ind4 (ascii_lit t) ++ rest) = Some (t, rest).
+Proof.
+  intros t rest Hr Hrest. rewrite reflow_id.
+  - unfold ascii_lit. rewrite lex_str_dq; [| exact Hrest |].
+    + pose proof (lex_repr_body (fun _ => false) (fun x => x) 34 t (34 :: rest) pr_none_ok Hr (or_introl (conj eq_refl eq_refl))) as L.
+      rewrite !map_id in L. rewrite L. rewrite step_close_dq. cbn [prepend]. rewrite app_nil_r. reflexivity.
+    + destruct t as [|c t]; [exact I|]. cbn [flat_map].
+      pose proof (repr_esc1_head (fun _ => false) 34 c) as Hh. destruct (repr_esc1 (fun _ => false) 34 c) as [|d l]; [contradiction|].
+      cbn [app]. destruct Hh as [-> | [-> Hne]]; [discriminate | exact Hne].
+  - unfold ascii_lit, dq. change (nobreak ([34] ++ flat_map (repr_esc1 (fun _ => false) 34) t ++ [34]) = true).
+    apply nobreak_app; [reflexivity|]. apply nobreak_app; [|reflexivity].
+    apply nobreak_repr_body; [exact pr_none_ok | exact Hr | left; reflexivity].
+Qed.
+
+(* repr through write_block *)
+Theorem media_repr_inert : forall pr t rest, pr_ok pr -> in_range t = true ->
+  match rest with c :: _ => c <> 34 /\ c <> 39 | [] => True end ->
+  lex_lit (site_media_repr pr t ++ rest) = Some (t, rest).
+Proof.
+  intros pr t rest Hpr Hr Hrest. unfold site_media_repr. rewrite reflow_id.
+  - apply repr_inert; assumption.
+  - apply nobreak_py_repr; assumption.
+Qed.
+
+(* the comment after the fix: one physical line for every text a document can contain *)
+Theorem field_comment_inert : forall t, scalar t = true -> single_physical_line (site_field_comment t) = true.
+Proof.
+  intros t H. unfold site_field_comment, single_physical_line. cbn [forallb]. cbn.
+  unfold scalar in H. unfold comment_clean. rewrite forallb_forall in *.
+  intros c Hc. apply in_map_iff in Hc. destruct Hc as [d [Hd Hin]]. specialize (H d Hin).
+  apply andb_true_iff in H. destruct H as [Hs Hm]. apply negb_true_iff in Hs. apply N.leb_le in Hm.
+  unfold line_break, bad_raw.
+  destruct (d =? 10) eqn:E10; [subst c; reflexivity|]. destruct (d =? 13) eqn:E13; [subst c; reflexivity|].
+  destruct (d =? 0) eqn:E0; [subst c; reflexivity|]. cbn [orb] in Hd. subst c.
+  rewrite E10, E13, E0, Hs. replace (1114111 <? d) with false by (symmetry; apply N.ltb_ge; lia). reflexivity.
+Qed.
+
+(* regression examples: the former witnesses now meet the statement *)
+Example fixed_F15a : lex_str (site_enum_value w_quote ++ []) = Some (w_quote, []) /\ lex_str (site_enum_value w_escn ++ []) = Some (w_escn, []).
+Proof. split; reflexivity. Qed.
+Example fixed_F15e : single_physical_line (site_field_comment w_cr) = true.
+Proof. reflexivity. Qed.
+Example fixed_F15f : lex_str (site_query_key w_quote ++ []) = Some (w_quote, []) /\ lex_str (site_header_key w_ff ++ []) = Some (w_ff, []).
+Proof. split; reflexivity. Qed.
+Example fixed_F15h : lex_str (site_default w_astral ++ []) = Some (w_astral, []).
+Proof. reflexivity. Qed.
+Example fixed_F15j : lex_str (site_media_type (w_quote ++ w_astral) ++ []) = Some (w_quote ++ w_astral, []).
+Proof. reflexivity. Qed.
+Example media_repr_example :
+  lex_lit (site_media_repr (fun c => c =? 233) [97; 39; 233; 133; 128512; 92] ++ [125]) = Some ([97; 39; 233; 133; 128512; 92], [125])
+  /\ lex_lit (site_media_repr (fun _ => false) [97; 39; 34] ++ []) = Some ([97; 39; 34], []).
+Proof. split; reflexivity. Qed.
+
+(* ================================================================== escaped docstring sites (fixes of F15c/d/g/k) *)
+Lemma repl3_app_sep : forall x n u sep, (length u <= n)%nat -> (sep =? 34) = false ->
+  repl3 x (u ++ [sep]) = repl3 x u ++ [sep].
+Proof.
+  induction n as [|n IH]; intros u sep Hlen Hs.
+  - destruct u; [|cbn in Hlen; lia]. cbn [app]. rewrite repl3_eq. reflexivity.
+  - destruct u as [|a [|b [|c r]]].
+    + cbn [app]. rewrite repl3_eq. reflexivity.
+    + cbn [app]. rewrite !repl3_eq. reflexivity.
+    + cbn [app]. rewrite (repl3_eq x a). cbv beta iota. rewrite Hs, andb_false_r.
+      rewrite (repl3_eq x a [b]). cbn [app]. f_equal; try (apply (IH [b] sep); [cbn in *; lia | exact Hs]).
+    + cbn [app]. rewrite (repl3_eq x a (b :: c :: r ++ [sep])). rewrite (repl3_eq x a (b :: c :: r)). cbv beta iota.
+      destruct ((a =? 34) && (b =? 34) && (c =? 34)).
+      * rewrite <- app_assoc. f_equal. apply IH; [cbn in *; lia | exact Hs].
+      * cbn [app]. f_equal. apply (IH (b :: c :: r) sep); [cbn in *; lia | exact Hs].
+Qed.
+
+Lemma paired_app_sep : forall n u sep, (length u <= n)%nat -> paired u = true -> (sep =? 92) = false ->
+  paired (u ++ [sep]) = true.
+Proof.
+  induction n as [|n IH]; intros u sep Hlen Hp Hs.
+  - destruct u; [|cbn in Hlen; lia]. cbn. rewrite Hs. reflexivity.
+  - destruct u as [|a r]; [cbn; rewrite Hs; reflexivity|].
+    cbn [app paired] in *. destruct (a =? 92).
+    + destruct r as [|d r']; [discriminate|]. cbn [app]. apply andb_true_iff in Hp. destruct Hp as [Hd Hp].
+      rewrite Hd. cbn [andb]. apply IH; [cbn in *; lia | exact Hp | exact Hs].
+    + apply IH; [cbn in *; lia | exact Hp | exact Hs].
+Qed.
+
+Lemma last_nq_app_sep : forall u sep, last_nq (u ++ [sep]) = negb (sep =? 34).
+Proof.
+  induction u as [|a u IH]; intro sep; [reflexivity|]. cbn [app last_nq].
+  destruct (u ++ [sep]) eqn:E; [destruct u; discriminate|]. rewrite <- E. apply IH.
+Qed.
+
+Lemma dbl_bs_app : forall a b, dbl_bs (a ++ b) = dbl_bs a ++ dbl_bs b.
+Proof. intros a b. unfold dbl_bs. apply flat_map_app. Qed.
+Lemma nul_sp_app : forall a b, nul_sp (a ++ b) = nul_sp a ++ nul_sp b.
+Proof. intros a b. unfold nul_sp. apply map_app. Qed.
+
+Lemma scalar_nobad_nul_sp : forall t, scalar t = true -> no_chars bad_raw (nul_sp t) = true.
+Proof.
+  intros t H. unfold no_chars, nul_sp, scalar in *. rewrite forallb_forall in *. intros c Hc.
+  apply in_map_iff in Hc. destruct Hc as [d [Hd Hin]]. specialize (H d Hin).
+  apply andb_true_iff in H. destruct H as [Hs Hm]. apply negb_true_iff in Hs. apply N.leb_le in Hm.
+  unfold bad_raw. destruct (d =? 0) eqn:E0; subst c; [reflexivity|].
+  rewrite E0, Hs. replace (1114111 <? d) with false by (symmetry; apply N.ltb_ge; lia). reflexivity.
+Qed.
+
+
+(* escaped text followed by a character that is neither quote nor backslash stays inside the literal *)
+Lemma doc_text_run : forall t sep X rest q, okq q -> scalar t = true -> sep_ok sep = true -> closes X rest ->
+  exists v, lex_go true q (doc_esc t ++ sep :: X) = Some (v, rest).
+Proof.
+  intros t sep X rest q Hq Ht Hsep HX. unfold sep_ok in Hsep. apply negb_true_iff in Hsep.
+  apply orb_false_iff in Hsep. destruct Hsep as [Hs1 Hbad]. apply orb_false_iff in Hs1. destruct Hs1 as [H34 H92].
+  set (u := dbl_bs (nul_sp t)).
+  replace (doc_esc t ++ sep :: X) with (repl3 esc_q3 (u ++ [sep]) ++ X).
+  - apply (alias_run (length (u ++ [sep]))); try assumption; [lia | | |].
+    + apply (paired_app_sep (length u)); [lia | apply paired_dbl_bs | exact H92].
+    + unfold no_chars. rewrite forallb_app. fold (no_chars bad_raw u). unfold u.
+      rewrite (nobad_dbl_bs _ (scalar_nobad_nul_sp t Ht)). cbn [forallb]. rewrite Hbad. reflexivity.
+    + rewrite last_nq_app_sep. rewrite H34. reflexivity.
+  - rewrite (repl3_app_sep _ (length u)) by (try lia; exact H34). rewrite <- app_assoc. reflexivity.
+Qed.
+
+Lemma isoq_closes : forall post rest, isoq post = true -> closes (post ++ q3 ++ rest) rest.
+Proof. intros post rest H q Hq. apply run_isoq; [exact Hq | exact H | apply closes_q3]. Qed.
+
+Theorem block_doc_inert : forall pre sep post t rest,
+  safe_doc_raw pre = true -> scalar t = true -> sep_ok sep = true -> isoq post = true ->
+  exists v, lex_str (site_block_doc pre (sep :: post) t ++ rest) = Some (v, rest).
+Proof.
+  intros pre sep post t rest Hp Ht Hs Hpost. unfold site_block_doc. rewrite <- !app_assoc. rewrite lex_str_q3.
+  apply run_docplain; [left; reflexivity | exact Hp |].
+  intros q Hq. cbn [app]. apply doc_text_run; [exact Hq | exact Ht | exact Hs | apply isoq_closes; exact Hpost].
+Qed.
+
+Theorem block_line_inert : forall t rest, scalar t = true ->
+  exists v, lex_str (site_block_line t ++ rest) = Some (v, rest).
+Proof. intros t rest H. apply (block_doc_inert [10] 10 [] t rest); [reflexivity | exact H | reflexivity | reflexivity]. Qed.
+
+Lemma scalar_app : forall a b, scalar a = true -> scalar b = true -> scalar (a ++ b) = true.
+Proof. intros a b Ha Hb. unfold scalar in *. rewrite forallb_app, Ha, Hb. reflexivity. Qed.
+
+Theorem client_title_inert : forall version t rest, scalar version = true -> scalar t = true ->
+  exists v, lex_str (site_client_title version t ++ rest) = Some (v, rest).
+Proof.
+  intros ver t rest Hv Ht. unfold site_client_title. apply block_line_inert.
+  apply scalar_app; [exact Ht|]. change (scalar ([32; 40; 118;101;114;115;105;111;110;32] ++ ver ++ [41]) = true).
+  apply scalar_app; [reflexivity|]. apply scalar_app; [exact Hv | reflexivity].
+Qed.
+
+Theorem tag_doc_inert : forall t rest, scalar t = true ->
+  exists v, lex_str (site_tag_doc t ++ rest) = Some (v, rest).
+Proof.
+  intros t rest Ht. unfold site_tag_doc. rewrite <- !app_assoc. rewrite lex_str_q3.
+  apply run_docplain; [left; reflexivity | reflexivity |].
+  intros q Hq. unfold s_q_endpoints. cbn [app].
+  apply doc_text_run; [exact Hq | exact Ht | reflexivity |].
+  apply (isoq_closes [32;101;110;100;112;111;105;110;116;115;46]). reflexivity.
+Qed.
+
+(* DocumentationWriter after the fix *)
+Definition scalar_c (c : N) : bool := negb (is_surrogate c) && (c <=? 1114111).
+Lemma drop_ws_P : forall (P : N -> bool) t, forallb P t = true -> forallb P (drop_ws t) = true.
+Proof.
+  intros P. induction t as [|c t IH]; intro H; [reflexivity|]. cbn [drop_ws]. destruct (doc_ws c); [|exact H].
+  cbn [forallb] in H. apply andb_true_iff in H. apply IH. apply H.
+Qed.
+Lemma layout_scalar : forall o t, forallb scalar_c t = true -> layoutb t o = true -> forallb scalar_c o = true.
+Proof.
+  induction o as [|c o IH]; intros t Ht HL; [reflexivity|]. cbn [layoutb] in HL. cbn [forallb].
+  destruct (out_ws c) eqn:Ew.
+  - assert (scalar_c c = true).
+    { unfold out_ws in Ew. apply orb_true_iff in Ew. destruct Ew as [Ew|Ew]; [apply orb_true_iff in Ew; destruct Ew as [Ew|Ew]|];
+        apply N.eqb_eq in Ew; subst c; reflexivity. }
+    rewrite H. apply (IH (drop_ws t)); [apply drop_ws_P; exact Ht | exact HL].
+  - pose proof (drop_ws_P scalar_c t Ht) as Hd.
+    destruct (drop_ws t) as [|c' t']; [discriminate|]. apply andb_true_iff in HL. destruct HL as [Hc HL].
+    apply N.eqb_eq in Hc. subst c'. cbn [forallb] in Hd. apply andb_true_iff in Hd. destruct Hd as [Hc Hd].
+    rewrite Hc. apply (IH t'); assumption.
+Qed.
+
+Lemma scalar_nul_sp : forall t, scalar t = true -> forallb scalar_c (nul_sp t) = true.
+Proof.
+  intros t H. unfold scalar, nul_sp in *. rewrite forallb_forall in *. intros c Hc.
+  apply in_map_iff in Hc. destruct Hc as [d [Hd Hin]]. destruct (d =? 0); subst c; [reflexivity | apply H; exact Hin].
+Qed.
+
+Lemma ends_lf_split : forall o, ends_lf o = true -> exists o', o = o' ++ [10].
+Proof.
+  intros o H. unfold ends_lf in H. destruct (rev o) as [|c r] eqn:E; [discriminate|].
+  apply N.eqb_eq in H. subst c. exists (rev r). apply (f_equal (@rev N)) in E. rewrite rev_involutive in E. exact E.
+Qed.
+
+Lemma doc_esc_app_lf : forall o, doc_esc (o ++ [10]) = doc_esc o ++ [10].
+Proof.
+  intro o. unfold doc_esc. rewrite nul_sp_app, dbl_bs_app. cbn [nul_sp map dbl_bs flat_map app].
+  apply (repl3_app_sep _ (length (dbl_bs (nul_sp o)))); [lia | reflexivity].
+Qed.
+
+Theorem docwriter_inert : forall t out rest, scalar t = true -> site_docwriter_rel t out = true ->
+  exists v, lex_str (out ++ rest) = Some (v, rest).
+Proof.
+  intros t out rest Ht HR. unfold site_docwriter_rel in HR.
+  destruct out as [|a [|b [|c e3]]]; try discriminate.
+  destruct (rev e3) as [|z [|y [|x re]]] eqn:Er; try (rewrite !andb_false_r in HR; discriminate).
+  repeat match goal with E : _ && _ = true |- _ => apply andb_true_iff in E; destruct E end.
+  repeat match goal with E : (_ =? _) = true |- _ => apply N.eqb_eq in E end. subst.
+  match goal with E : str_eqb _ _ = true |- _ => apply str_eqb_eq in E; rename E into He end.
+  apply (f_equal (@rev N)) in Er. rewrite rev_involutive in Er. cbn [rev] in Er. rewrite <- !app_assoc in Er. cbn [app] in Er.
+  set (o := doc_unesc (rev re)) in *.
+  match goal with E : ends_lf o = true |- _ => destruct (ends_lf_split o E) as [o' Ho'] end.
+  match goal with E : layoutb _ o = true |- _ => pose proof (layout_scalar o _ (scalar_nul_sp t Ht) E) as Hso end.
+  rewrite Er. rewrite <- He. rewrite Ho'. rewrite doc_esc_app_lf.
+  change (34 :: 34 :: 34 :: (doc_esc o' ++ [10]) ++ [34; 34; 34]) with (q3 ++ (doc_esc o' ++ [10]) ++ q3).
+  rewrite <- !app_assoc. rewrite lex_str_q3. cbn [app].
+  apply doc_text_run; [left; reflexivity | | reflexivity | apply closes_q3].
+  rewrite Ho' in Hso. rewrite forallb_app in Hso. apply andb_true_iff in Hso. exact (proj1 Hso).
+Qed.
+
+(* alias docstring after the fix: every quote escaped *)
+Lemma alias_esc1_step : forall c q X rest, okq q -> scalar_c c = true ->
+  (forall q', okq q' -> exists v, lex_go true q' X = Some (v, rest)) ->
+  exists v, lex_go true q (alias_esc1 c ++ X) = Some (v, rest).
+Proof.
+  intros c q X rest Hq Hc HX. unfold alias_esc1.
+  assert (Hbs : forall d, simple_escape d = Some d -> exists v, lex_go true q (92 :: d :: X) = Some (v, rest)).
+  { intros d Hd. assert (E : lex_go true q (92 :: d :: X) = consf d (lex_go true Nrm X)).
+    { destruct Hq as [-> | ->]; [|rewrite afterCR_not10 by reflexivity]; rewrite step_bs; apply step_esc_simple; exact Hd. }
+    rewrite E. apply consf_some. apply HX. left; reflexivity. }
+  destruct (c =? 0) eqn:E0.
+  - cbn [app]. apply step_docplain; [reflexivity | exact Hq | exact HX].
+  - destruct (c =? 92) eqn:E92; [cbn [app]; apply Hbs; reflexivity|].
+    destruct (c =? 34) eqn:E34; [cbn [app]; apply Hbs; reflexivity|].
+    cbn [app]. apply step_docplain; [| exact Hq | exact HX].
+    unfold docplain, bad_raw. rewrite E34, E92, E0. unfold scalar_c in Hc. apply andb_true_iff in Hc. destruct Hc as [Hs Hm].
+    apply negb_true_iff in Hs. rewrite Hs. apply N.leb_le in Hm.
+    replace (1114111 <? c) with false by (symmetry; apply N.ltb_ge; lia). reflexivity.
+Qed.
+
+Lemma alias_esc_run : forall t q X rest, okq q -> scalar t = true -> closes X rest ->
+  exists v, lex_go true q (alias_esc t ++ X) = Some (v, rest).
+Proof.
+  induction t as [|c t IH]; intros q X rest Hq Ht HX.
+  - apply HX. exact Hq.
+  - unfold scalar in Ht. cbn [forallb] in Ht. apply andb_true_iff in Ht. destruct Ht as [Hc Ht].
+    unfold alias_esc. cbn [flat_map]. rewrite <- app_assoc. apply alias_esc1_step; [exact Hq | exact Hc |].
+    intros q' Hq'. apply IH; assumption.
+Qed.
+
+Theorem alias_doc_inert : forall t rest, scalar t = true ->
+  site_alias_doc t = [] \/ exists v, lex_str (site_alias_doc t ++ rest) = Some (v, rest).
+Proof.
+  intros t rest H. destruct t as [|c t]; [left; reflexivity|]. right.
+  unfold site_alias_doc. rewrite <- !app_assoc. rewrite lex_str_q3.
+  apply run_docplain; [left; reflexivity | reflexivity |].
+  intros q Hq. apply alias_esc_run; [exact Hq | exact H | apply closes_q3].
+Qed.
+
+(* regression: the former witnesses *)
+Example fixed_F15c : exists v, lex_str (site_alias_doc w_endq ++ []) = Some (v, []).
+Proof. eexists. reflexivity. Qed.
+Example fixed_F15d : site_docwriter_rel q3 (q3 ++ [10] ++ esc_q3 ++ [10] ++ q3) = true /\
+  exists v, lex_str ((q3 ++ [10] ++ esc_q3 ++ [10] ++ q3) ++ []) = Some (v, []).
+Proof. split; [reflexivity | eexists; reflexivity]. Qed.
+Example fixed_F15g : exists v, lex_str (site_client_title [49;46;48] q3 ++ []) = Some (v, []).
+Proof. eexists. reflexivity. Qed.
+Example fixed_F15k : (exists v, lex_str (site_tag_doc q3 ++ []) = Some (v, [])) /\
+  (exists v, lex_str (site_block_line w_bsx ++ []) = Some (v, [])).
+Proof. split; eexists; reflexivity. Qed.
